@@ -42,7 +42,7 @@ func primitiveMutators(p *core.Prog) map[*ssa.Function]string {
 			out[lit.Fn] = "registry request with non-constant method"
 			continue
 		}
-		if !readMethods[lit.Method] {
+		if !readMethod(lit.Method) {
 			out[lit.Fn] = "registry " + lit.Method + " request"
 		}
 	}
